@@ -467,8 +467,8 @@ def build_fn(fs, repo, effectful, table_keys):
             log.append('R9 ghost iterator binder `%s` on loop %d' % (lp.iter, n))
         cur_off[0] = st[lo_i][2]
         add_here('\n')
-        kw = 'invariant_except_break' if lp.is_invariant_except_break else 'invariant'
-        clause_lines(lp.invariants, kw, 'loop%d/invariant' % n, '        ')
+        clause_lines(lp.invariants_xb, 'invariant_except_break', 'loop%d/invariant_xb' % n, '        ')
+        clause_lines(lp.invariants, 'invariant', 'loop%d/invariant' % n, '        ')
         clause_lines(lp.ensures, 'ensures', 'loop%d/ensures' % n, '        ')
         clause_lines(lp.decreases, 'decreases', 'loop%d/decreases' % n, '        ')
         add_here('        ')
@@ -502,6 +502,23 @@ def build_fn(fs, repo, effectful, table_keys):
         nasserts = len(re.findall(r'\bassert\b', txt))
         ob.append({'oid': insr.oid, 'kind': 'proof-block', 'tags': insr.tags or fs.safety,
                    'text': '%d assert(s) %s `%s`' % (nasserts, insr.where, insr.anchor), 'origin': insr.origin})
+
+    if fs.external:
+        # trusted function: signature + contract only, the body is dropped
+        ins = [x for x in ins if x[0] <= st[body_open][2]]
+        ins.sort(key=lambda x: (x[0], x[1]))
+        pieces = []
+        pos = 0
+        for off, _, s_, origin in ins:
+            if off > pos:
+                pieces.append(Piece(text[pos:off], ('src', pos)))
+                pos = off
+            pieces.append(Piece(s_, origin))
+        pieces.append(Piece(text[pos:st[body_open][2]], ('src', pos)))
+        pieces.append(Piece('{ unimplemented!() }', ('glue', None)))
+        log.append('TRUSTED: body dropped, contract assumed')
+        g.out_lines = _pieces_to_lines(pieces, g, text)
+        return g
 
     # ---- R1 at call sites
     eff = set(effectful) | set(table_keys) | set(fs.extra_effectful)
@@ -554,7 +571,11 @@ def build_fn(fs, repo, effectful, table_keys):
                 rel = nm_s - p.origin[1]
                 p.text = p.text[:rel] + fs.rename + p.text[rel + (nm_e - nm_s):]
                 break
-    # to lines
+    g.out_lines = _pieces_to_lines(pieces, g, text)
+    return g
+
+
+def _pieces_to_lines(pieces, g, text):
     cur_line_origin = None
     line_buf = ''
     lines = []
@@ -576,5 +597,4 @@ def build_fn(fs, repo, effectful, table_keys):
                     cur_line_origin = o
             line_buf += part
     lines.append((line_buf, cur_line_origin or ('glue', None)))
-    g.out_lines = lines
-    return g
+    return lines
